@@ -140,7 +140,8 @@ def run(ctx):
         ctx.obligation('translation validation: name list of the built wheel = shipped set of the packaging model (%d files)' % len(actual), not only_wheel and not only_model,
                        'only in wheel: %r; only in model: %r' % (only_wheel[:5], only_model[:5]))
         # behaviour of the installed copy
-        inst = os.path.join(tmp, 'inst'); z.extractall(inst)
+        # (a realistic install location: its path has dots and blanks-free but unusual characters, like lib/python3.12/site-packages)
+        inst = os.path.join(tmp, 'venv-1.0', 'lib', 'python3.12', 'site-packages'); os.makedirs(inst); z.extractall(inst)
         scripts = glob.glob(os.path.join(inst, '*.data', 'scripts'))
         if scripts: shutil.copytree(scripts[0], os.path.join(inst, 'scripts'))
         q = ctx.tier == 'quick'; rng = ctx.rng
@@ -148,7 +149,7 @@ def run(ctx):
         wv = battle.wows_versions(); picks = wv if not q else [wv[i] for i in range(0, len(wv), 10)]
         for v in picks:
             p = os.path.join(tmp, 'w-%s.wowsreplay' % v); battle.write_wows(p, v, random.Random(rng.randrange(10 ** 9)), join=False, roster_extra=fixture_roster); files.append(p)
-        for game, v in (('wot', '1_10_0'), ('wowp', '2_1_17'), ('wowp', '1_7_5')):
+        for game, v in (('wot', '1_10_0'), ('wot', '1_8_0'), ('wowp', '2_1_17'), ('wowp', '1_7_5')):
             p = os.path.join(tmp, '%s-%s.%s' % (game, v, {'wot': 'wotreplay', 'wowp': 'wowpreplay'}[game])); battle.write_simple(p, game, v, random.Random(1)); files.append(p)
         files += [f for f in recordings.list_recordings() if os.path.getsize(f) < (800000 if q else 10 ** 9)][: (4 if q else 100)]
         newest = sorted((f for f in recordings.list_recordings() if f.endswith('.wowsreplay')), key=lambda f: [int(x) if x.isdigit() else 0 for x in os.path.basename(os.path.dirname(f)).split('_')])[-1]
